@@ -198,7 +198,8 @@ Record cell := mkC { c_data : json; c_jobs : list nat }.
    MOVED to the new file name when one renames; every mutation of a state point first looks its file name up
    there (KeyError when another object for the same file has renamed in the meantime). *)
 Record world := mkW { w_fs : fs; w_ss : list session; w_hs : list handle; w_cs : list cell; w_tr : list ev;
-                      w_hd : list (option nat); w_ds : list (path * json); w_locks : list path }.
+                      w_hd : list (option nat); w_ds : list (path * json); w_locks : list path;
+                      w_cf : list path  (* per cell: _StatePointDict.filename *) }.
 
 Definition dS := mkS [] [] false.
 Definition dH := mkH 0 [] None None false.
@@ -208,33 +209,39 @@ Definition getH (w : world) (i : nat) : handle := nth i (w_hs w) dH.
 Definition getC (w : world) (i : nat) : cell := nth i (w_cs w) dC.
 
 Definition set_fs (w : world) (f : fs) (e : list ev) : world :=
-  mkW f (w_ss w) (w_hs w) (w_cs w) (w_tr w ++ e) (w_hd w) (w_ds w) (w_locks w).
+  mkW f (w_ss w) (w_hs w) (w_cs w) (w_tr w ++ e) (w_hd w) (w_ds w) (w_locks w) (w_cf w).
 Definition set_S (w : world) (i : nat) (s : session) : world :=
-  mkW (w_fs w) (set_nth i s (w_ss w)) (w_hs w) (w_cs w) (w_tr w) (w_hd w) (w_ds w) (w_locks w).
+  mkW (w_fs w) (set_nth i s (w_ss w)) (w_hs w) (w_cs w) (w_tr w) (w_hd w) (w_ds w) (w_locks w) (w_cf w).
 Definition set_H (w : world) (i : nat) (h : handle) : world :=
-  mkW (w_fs w) (w_ss w) (set_nth i h (w_hs w)) (w_cs w) (w_tr w) (w_hd w) (w_ds w) (w_locks w).
+  mkW (w_fs w) (w_ss w) (set_nth i h (w_hs w)) (w_cs w) (w_tr w) (w_hd w) (w_ds w) (w_locks w) (w_cf w).
 Definition set_C (w : world) (i : nat) (c : cell) : world :=
-  mkW (w_fs w) (w_ss w) (w_hs w) (set_nth i c (w_cs w)) (w_tr w) (w_hd w) (w_ds w) (w_locks w).
+  mkW (w_fs w) (w_ss w) (w_hs w) (set_nth i c (w_cs w)) (w_tr w) (w_hd w) (w_ds w) (w_locks w) (w_cf w).
 Definition add_S (w : world) (s : session) : world :=
-  mkW (w_fs w) (w_ss w ++ [s]) (w_hs w) (w_cs w) (w_tr w) (w_hd w) (w_ds w) (w_locks w).
+  mkW (w_fs w) (w_ss w ++ [s]) (w_hs w) (w_cs w) (w_tr w) (w_hd w) (w_ds w) (w_locks w) (w_cf w).
 Definition add_H (w : world) (h : handle) : world :=
-  mkW (w_fs w) (w_ss w) (w_hs w ++ [h]) (w_cs w) (w_tr w) (w_hd w ++ [None]) (w_ds w) (w_locks w).
+  mkW (w_fs w) (w_ss w) (w_hs w ++ [h]) (w_cs w) (w_tr w) (w_hd w ++ [None]) (w_ds w) (w_locks w) (w_cf w).
 Definition add_C (w : world) (c : cell) : world :=
-  mkW (w_fs w) (w_ss w) (w_hs w) (w_cs w ++ [c]) (w_tr w) (w_hd w) (w_ds w) (w_locks w).
+  mkW (w_fs w) (w_ss w) (w_hs w) (w_cs w ++ [c]) (w_tr w) (w_hd w) (w_ds w) (w_locks w) (w_cf w ++ [[]]).
+Definition getCF (w : world) (ci : nat) : path := nth ci (w_cf w) [].
+Definition set_CF (w : world) (ci : nat) (p : path) : world :=
+  mkW (w_fs w) (w_ss w) (w_hs w) (w_cs w) (w_tr w) (w_hd w) (w_ds w) (w_locks w) (set_nth ci p (w_cf w)).
+(* a new cell together with its file name *)
+Definition add_CF (w : world) (c : cell) (p : path) : world :=
+  mkW (w_fs w) (w_ss w) (w_hs w) (w_cs w ++ [c]) (w_tr w) (w_hd w) (w_ds w) (w_locks w) (w_cf w ++ [p]).
 Definition getHD (w : world) (h : nat) : option nat := nth h (w_hd w) None.
 Definition getD (w : world) (d : nat) : path * json := nth d (w_ds w) ([], JObj []).
 Definition set_HD (w : world) (h : nat) (o : option nat) : world :=
-  mkW (w_fs w) (w_ss w) (w_hs w) (w_cs w) (w_tr w) (set_nth h o (w_hd w)) (w_ds w) (w_locks w).
+  mkW (w_fs w) (w_ss w) (w_hs w) (w_cs w) (w_tr w) (set_nth h o (w_hd w)) (w_ds w) (w_locks w) (w_cf w).
 Definition set_D (w : world) (d : nat) (x : path * json) : world :=
-  mkW (w_fs w) (w_ss w) (w_hs w) (w_cs w) (w_tr w) (w_hd w) (set_nth d x (w_ds w)) (w_locks w).
+  mkW (w_fs w) (w_ss w) (w_hs w) (w_cs w) (w_tr w) (w_hd w) (set_nth d x (w_ds w)) (w_locks w) (w_cf w).
 Definition add_D (w : world) (x : path * json) : world :=
-  mkW (w_fs w) (w_ss w) (w_hs w) (w_cs w) (w_tr w) (w_hd w) (w_ds w ++ [x]) (w_locks w).
+  mkW (w_fs w) (w_ss w) (w_hs w) (w_cs w) (w_tr w) (w_hd w) (w_ds w ++ [x]) (w_locks w) (w_cf w).
 Definition lock_add (w : world) (p : path) : world :=
-  mkW (w_fs w) (w_ss w) (w_hs w) (w_cs w) (w_tr w) (w_hd w) (w_ds w) (p :: w_locks w).
+  mkW (w_fs w) (w_ss w) (w_hs w) (w_cs w) (w_tr w) (w_hd w) (w_ds w) (p :: w_locks w) (w_cf w).
 Definition lock_has (w : world) (p : path) : bool := existsb (path_eqb p) (w_locks w).
 Definition lock_move (w : world) (old new : path) : world :=
   mkW (w_fs w) (w_ss w) (w_hs w) (w_cs w) (w_tr w) (w_hd w) (w_ds w)
-      (new :: filter (fun q => negb (path_eqb old q)) (w_locks w)).
+      (new :: filter (fun q => negb (path_eqb old q)) (w_locks w)) (w_cf w).
 
 Definition wsp (s : session) : path := s_root s ++ [WS].
 Definition jobdir (w : world) (h : handle) : path := wsp (getS w (h_s h)) ++ [h_id h].
@@ -340,13 +347,13 @@ Section WS.
         let ci := length (w_cs w) in
         match h_cached h with
         | Some sp =>
-            let w1 := lock_add (add_C w (mkC sp [hi])) (spfile w h) in
+            let w1 := lock_add (add_CF w (mkC sp [hi]) (spfile w h)) (spfile w h) in
             (set_H w1 hi (mkH (h_s h) (h_id h) (h_cached h) (Some ci) (h_dk h)), inl ci)
         | None =>
             match load_file w h with
             | inr e => (w, inr e)
             | inl v =>
-                let w1 := lock_add (add_C w (mkC v [hi])) (spfile w h) in
+                let w1 := lock_add (add_CF w (mkC v [hi]) (spfile w h)) (spfile w h) in
                 let w2 := register w1 (h_s h) (h_id h) v in
                 (set_H w2 hi (mkH (h_s h) (h_id h) (Some v) (Some ci) (h_dk h)), inl ci)
             end
@@ -427,15 +434,15 @@ Section WS.
      root in the middle of an in-place _update): since fix 3806f72 the method returns at once. *)
   Definition sp_save (susp : bool) (w : world) (ci : nat) : world * res unit :=
     let c := getC w ci in
-    let h0 := getH w (hd 0%nat (c_jobs c)) in
+    let h0 := getH w (hd 0%nat (c_jobs c)) in       (* job = next(iter(self._jobs)) *)
     let old_id := h_id h0 in
     let new_id := calc_id frepr (c_data c) in
     if susp then (w, inl tt)
     else if str_eqb old_id new_id then (w, inl tt)
     else
       let wsd := wsp (getS w (h_s h0)) in
-      let fname := wsd ++ [old_id; SPF] in
-      let tmp := wsd ++ [old_id; SPT] in
+      let fname := getCF w ci in                      (* self.filename *)
+      let tmp := parent fname ++ [last fname [] ++ [126%N]] in   (* self.filename + "~" *)
       let phase1 : world * res bool :=
         match rename (w_fs w) fname tmp with
         | FErr ENOENT => (w, inl false)
@@ -458,7 +465,9 @@ Section WS.
       | (w1, inr e) => (w1, inr e)
       | (w1, inl should_init) =>
           let w2 := reset_docs (set_cached (set_ids w1 (c_jobs c) new_id) (c_jobs c) (c_data c)) (c_jobs c) in
-          let tmp' := wsd ++ [new_id; SPT] in
+          let hl := last (c_jobs c) 0%nat in          (* the loop variable after "for job in self._jobs" *)
+          let newfile := spfile w2 (getH w2 hl) in
+          let tmp' := jobdir w2 (getH w2 hl) ++ [SPT] in
           let un := match unlink (w_fs w2) tmp' with
                     | FOk f => FOk (f, [EvUnlink tmp'])
                     | FErr ENOENT => FOk (w_fs w2, [])
@@ -467,13 +476,13 @@ Section WS.
           match un with
           | FErr e => (w2, inr (FOs e))
           | FOk (f3, e3) =>
-              let w3 := lock_move (set_fs w2 f3 e3) fname (wsd ++ [new_id; SPF]) in
-              if should_init then init susp false w3 (last (c_jobs c) 0%nat) else (w3, inl tt)
+              let w3 := set_CF (lock_move (set_fs w2 f3 e3) fname newfile) ci newfile in
+              if should_init then init susp false w3 hl else (w3, inl tt)
           end
       end.
 
-  (* self.filename of a cell: kept in step with its first job's (project, id) on every path modelled here *)
-  Definition cell_file (w : world) (ci : nat) : path := spfile w (getH w (hd 0%nat (c_jobs (getC w ci)))).
+  (* self.filename of a cell *)
+  Definition cell_file (w : world) (ci : nat) : path := getCF w ci.
 
   Definition set_data (w : world) (ci : nat) (d : json) : world :=
     set_C w ci (mkC d (c_jobs (getC w ci))).
@@ -504,7 +513,7 @@ Section WS.
       | Some ci => (w, ci)
       | None =>
           let ci := length (w_cs w) in
-          (set_H (lock_add (add_C w (mkC (JObj []) [hi])) (spfile w h)) hi
+          (set_H (lock_add (add_CF w (mkC (JObj []) [hi]) (spfile w h)) (spfile w h)) hi
                  (mkH (h_s h) (h_id h) (h_cached h) (Some ci) (h_dk h)), ci)
       end in
     if lock_has w1 (cell_file w1 ci) then
@@ -599,7 +608,7 @@ Section WS.
     let w1 := add_S w (getS w (h_s h)) in
     let '(w2, cell') :=
       match h_cell h with
-      | Some ci => (add_C w1 (mkC (c_data (getC w1 ci)) [hj]), Some (length (w_cs w1)))
+      | Some ci => (add_CF w1 (mkC (c_data (getC w1 ci)) [hj]) (getCF w1 ci), Some (length (w_cs w1)))
       | None => (w1, None)
       end in
     let w3' := add_H w2 (mkH sj (h_id h) (h_cached h) cell' (h_dk h)) in
@@ -1123,7 +1132,7 @@ Section WS.
     | _, _ => false
     end.
 
-  Definition w0 : world := mkW [] [] [] [] [] [] [] [].
+  Definition w0 : world := mkW [] [] [] [] [] [] [] [] [].
 
   (* ------------------------------------------------------------------ predicates used by the theorems *)
   (* a job directory that validates: directory, state point file present, parses, hashes to the name *)
